@@ -184,10 +184,7 @@ def r_best(m, rep, R='R1.2b'):
         rep.check(ok, R, _w(m.locals[name].line), 'outside:shape:' + name,
                   'outside table %s is (length+1) x (length+1)' % name,
                   'outside table %s has dims %s' % (name, [canon(x) for x in (a or ())]))
-    # every working object of the search is a fresh automatic local of this call (nothing survives between sentences)
-    persistent = sorted(n_ for n_, d_ in m.locals.items() if d_.storage)
-    rep.check(not persistent, R, _w(m.body.line), 'locals:automatic', 'all %d locals of parse_sentence have automatic storage: every sentence starts from fresh queues, tables and charts' % len(m.locals),
-              'locals with static / thread storage keep their contents between sentences: %s' % [(n_, m.locals[n_].storage) for n_ in persistent])
+    r_locals_automatic(m, rep, R)
     # statement order: init loop < outside calls < leaf loop < search loop
     idx = {id(s): i for i, s in enumerate(m.top)}
     order = [max(idx[id(l_)] for l_ in m.init_loops)] + [idx[id(o[3])] for o in m.outside] + [idx[id(m.leaf_loop)], idx[id(m.main_loop)]]
@@ -214,6 +211,13 @@ def r_best(m, rep, R='R1.2b'):
     rep.check(ok, R, _w(am.line, 'matrix::argmax'), 'matrix:argmax',
               'matrix::argmax(r) scans exactly row r', 'matrix::argmax(r) is %s'
               % (canon(p[0][2]) if p and p[0][2] else '?'))
+
+
+def r_locals_automatic(m, rep, R):
+    # every working object of the search is a fresh automatic local of this call (nothing survives between sentences)
+    persistent = sorted(n_ for n_, d_ in m.locals.items() if d_.storage)
+    rep.check(not persistent, R, _w(m.body.line), 'locals:automatic', 'all %d locals of parse_sentence have automatic storage: every sentence starts from fresh queues, tables and charts' % len(m.locals),
+              'locals with static / thread storage keep their contents between sentences: %s' % [(n_, m.locals[n_].storage) for n_ in persistent])
 
 
 def r_utils_argmax(m, rep, R):
@@ -776,6 +780,46 @@ def r_search_loop(m, rep, R):
     rep.check(ok, R, _w(m.ps.line), 'search:status',
               'parse_sentence reports failure (non-zero) exactly when the goal cell is empty',
               'return paths: %s' % [([(canon(c), pol) for c, pol in p[0]], canon(p[2]) if p[2] else None) for p in P.paths])
+
+
+def r_expansion_unconditional(m, rep, R):
+    """every accepted chart entry is expanded: the unary and binary push sites depend on nothing but (a) the popped item
+    not being a finished one, (b) the chart having accepted it, (c) for unary steps the span rule, and emptiness / null
+    tests of the containers walked.  Any further condition (an `else` of the goal test, a category or score test)
+    removes derivations from the search space."""
+    sh = search_shape(m)
+    topv = sh['top']
+    upd = sh['update']
+    if upd is None:
+        raise AnalysisError('%s: chart.update call of the search loop not found' % 'depccg/parsing.h')
+    E, call, _ = upd
+    ln = V(m.p_len)
+    for s in m.sites:
+        if s.kind not in ('unary', 'binary'):
+            continue
+        Lp = s.f['left']
+        extra = []
+        for c in s.ctx:
+            if c[0] != 'if':
+                continue
+            cond, pol = c[1], c[2]
+            if canon(cond) == canon(M(topv, 'fin')) and pol is False:
+                continue
+            if _nonnull_guard(cond, pol, E, call):
+                continue
+            if s.kind == 'unary' and pol is True:
+                ds = sorted(canon(x) for x in disjuncts(cond))
+                if ds in (sorted([canon(('bin', '==', ln, LIT(1))), canon(('bin', '!=', M(Lp, 'span_length'), ln))]),
+                          [canon(('bin', '!=', M(Lp, 'span_length'), ln))], [canon(('bin', '<', M(Lp, 'span_length'), ln))]):
+                    continue
+            txt = canon(cond)
+            if 'nullptr' in txt or '.empty()' in txt or '.size()' in txt or txt.startswith(('cell', '(cell', '!cell')):
+                continue        # walking a container: nothing to expand with
+            extra.append('%s is %s' % (txt, 'true' if pol else 'false'))
+        rep.check(not extra, R, s.where(), 'search:expansion-unconditional:%s:%d' % (s.kind, m.sites.index(s)),
+                  '%s expansion depends only on the item being accepted by the chart%s' % (s.kind, ' and the span rule' if s.kind == 'unary' else ''),
+                  '%s expansion happens only when %s: accepted entries that fail this are never expanded and their derivations are lost'
+                  % (s.kind, ' and '.join(extra)))
 
 
 def r_backpointers(m, rep, R):
